@@ -684,13 +684,16 @@ fn first_wins_versions(versions: &[Vec<Arc<str>>], mids: &[Vec<Option<Arc<str>>>
 }
 
 /// refs[v][q] = "<hash>" | "panic:<hash>"  for a fresh single-threaded analysis of version v
-fn references(versions: &[Option<Vec<Arc<str>>>], menu: &[Query]) -> Vec<Vec<String>> {
+/// `versions[v]` = the workspace to analyse (None: no row), `positions[v]` = the texts the query positions are
+/// resolved against (what a reader of version v uses)
+fn references(versions: &[Option<Vec<Arc<str>>>], positions: &[Vec<Arc<str>>], menu: &[Query]) -> Vec<Vec<String>> {
     let (tx, rx) = mpsc::channel();
     for (v, texts) in versions.iter().enumerate() {
         let Some(texts) = texts.clone() else {
             let _ = tx.send((v, vec![]));
             continue;
         };
+        let pos_texts = positions[v].clone();
         let menu = menu.to_vec();
         let tx = tx.clone();
         spawn(format!("ref{v}"), move || {
@@ -699,7 +702,7 @@ fn references(versions: &[Option<Vec<Arc<str>>>], menu: &[Query]) -> Vec<Vec<Str
             let row: Vec<String> = menu
                 .iter()
                 .map(|q| {
-                    let r = run_query(&snap, q, &texts[q.file]);
+                    let r = run_query(&snap, q, &pos_texts[q.file]);
                     match r {
                         Res::Ok(h) => h,
                         other => format!("{}:{}", other.tag(), other.hash()),
@@ -817,8 +820,8 @@ fn one_run(plan: RunPlan, mut rng: Rng, attempt: u64, deadline: Duration, max_q:
     }
     let mut all = vec![];
     if blocked.is_none() {
-        let refs = references(&sh.versions.iter().cloned().map(Some).collect::<Vec<_>>(), &sh.menu);
-        let refs_first = references(&first_wins_versions(&sh.versions, &sh.mids), &sh.menu);
+        let refs = references(&sh.versions.iter().cloned().map(Some).collect::<Vec<_>>(), &sh.versions, &sh.menu);
+        let refs_first = references(&first_wins_versions(&sh.versions, &sh.mids), &sh.versions, &sh.menu);
         all.push(json!({"ev": "reset", "run": plan.run, "attempt": attempt, "n": n, "k": plan.k, "nf": plan.nf, "refs": refs,
             "refs_first_content_wins": refs_first,
             "menu": sh.menu.iter().map(|q| format!("{}@m{}:{}..{:?}+{}", q.kind, q.file, q.anchor, q.inner, q.delta)).collect::<Vec<_>>(),
